@@ -254,7 +254,7 @@ class World:
                         dt = np.dtype(tx["it"]["np"].lower())
                         if a.dtype != dt:
                             raise TypeError("to_nplike dtype")
-                        if a.size > 4096:
+                        if a.size > (4096 if not getattr(self, "big_ok", False) else 20000):
                             raise OverflowError("implausible shape")
                         v = {"sh": [int(d) for d in a.shape], "it": [list(a[idx].tobytes()) for idx in np.ndindex(*a.shape)]}
                         size, strides = -1, [int(q) for q in a.strides]
